@@ -222,6 +222,13 @@ pub fn run(tier: Tier) -> i32 {
                     ("r5".into(), s(vec![fk_args("s0", vec![("x", FkArg::Bool(true))])])),
                     ("r6".into(), s(vec![fk_args("s1", vec![("x", FkArg::Int(-5)), ("y", FkArg::Float("0.5".into()))])])),
                     ("r7".into(), s(vec![text(&format!("[{l}.r7] ")), fk("neg"), text(" mid "), fk("f")])),
+                    // arguments reach the variable wherever the target holds it: inside a component, inside a nested one,
+                    // inside and outside at once, renamed on the way
+                    ("gc".into(), s(vec![text(&format!("[{l}.gc] ")), comp("b", vec![var("name")]), text(", welcome "), var("name"), text("!")])),
+                    ("gn".into(), s(vec![comp("b", vec![text(&format!("[{l}.gn] ")), comp("i", vec![var("who"), text(" / "), var("name")])])])),
+                    ("a1".into(), s(vec![fk_args("gc", vec![("name", FkArg::Str(vec![text("Bob")]))])])),
+                    ("a2".into(), s(vec![text("<"), fk_args("gn", vec![("name", FkArg::UInt(3)), ("who", FkArg::Str(vec![var("other")]))]), text(">")])),
+                    ("a3".into(), s(vec![fk_args("gn", vec![("who", FkArg::Str(vec![text("W")]))])])),
                     // white space right after a reference - with and without an argument object - at the end of the
                     // value, before more text, and at both ends
                     ("w1".into(), s(vec![text(&format!("[{l}.w1] ")), fk_args("s0", vec![("x", FkArg::UInt(5))]), text(" ")])),
